@@ -2,17 +2,19 @@ package main
 
 // Area "grpcgun", fourth part (property C20, round 4): code the anchored files DEPEND on, and the glue around them.
 //
-//	components/providers/scenario/provider.go   (*Provider[A]).Run: the loop that hands out the ammo list (index, passes, limit)
-//	lib/mp/map.go, lib/mp/iterator.go           calcIndex (the [next] / [last] / [<n>] / [-<n>] forms), (*NextIterator).Next
-//	lib/math/gcd_lcm.go                         GCD, GCDM (scenario weights)
-//	components/providers/scenario/config        SpreadNames (how often every scenario enters the ammo list)
+//	components/providers/scenario/provider.go   (*Provider[A]).Run: what precedes the loop
+//	lib/mp/iterator.go                          (*NextIterator).Next
+//	lib/math/gcd_lcm.go                         GCDM (scenario weights)
+//	components/providers/scenario/config        SpreadNames without its two loops
 //	components/providers/scenario/grpc          decodeAmmo: the loop that repeats a scenario in the ammo list
 //	components/guns/grpc/core.go                prepareMethodList's loop over the services (an unresolvable service is
-//	                                            skipped), MakeGRPCConnect's own (dial) timeout, NewGun (the configuration
-//	                                            is stored as given)
+//	                                            skipped), NewGun (the configuration is stored as given)
 //	components/guns/grpc/scenario/core.go       mergeMaps (the first definition of a variable wins)
 //	components/providers/grpc/grpcjson          NewProvider (source.path names the file)
 //	components/grpc/import                      how the grpc plugins are registered (default configuration or none)
+//
+// (The provider's loop, calcIndex, GCD, the loops of SpreadNames and the dial timeout of MakeGRPCConnect are re-extracted
+// as Lean FUNCTIONS by area_grpcgun_sym.go.)
 //
 // Statements are printed in the canonical form of area_grpcgun_feed.go (receiver `$recv`, parameters `$0…`, other locals
 // `$<type><rank>`); string literals are kept EXCEPT those handed to an error constructor or a logger (`"…"`): renaming
